@@ -230,6 +230,14 @@ def translate(repo=None):
         raise GenError('DEFAULT_TIMER_VALUE is not an int')
     out.append('Definition g_default_timer_value : Z := %s.' % zlit(tv))
     out.append('Definition g_pt_timegap_bits : Z := %s.' % zlit(fbits(System.program_track_timegap)))
+    # does _programTrack refuse a non-finite explicit start time?  (isfinite(start_time) somewhere in it)
+    ptf = find_func(syscls, '_programTrack')
+    if ptf is None:
+        raise GenError('_programTrack missing')
+    chk = any(isinstance(n, ast.Call) and getattr(n.func, 'attr', getattr(n.func, 'id', None)) == 'isfinite'
+              and len(n.args) == 1 and isinstance(n.args[0], ast.Name) and n.args[0].id == 'start_time'
+              for n in ast.walk(ptf))
+    out.append('Definition g_pt_start_finite_check : bool := %s.' % ('true' if chk else 'false'))
 
     # servos
     init = find_func(syscls, '__init__')
